@@ -64,7 +64,19 @@ fn build(r: &mut Rng, seed: u64, topo_idx: u64) -> Option<Built> {
     for e in &us.as_entries {
         keys.insert(e.local.to_u64(), key_for(seed, e.local.to_u64(), topo_idx));
     }
-    let entries: Vec<AsEntry> = us.as_entries.clone();
+    let mut entries: Vec<AsEntry> = us.as_entries.clone();
+    // in a third of the segments the peer hop fields carry values of their own (egress, expiry)
+    // instead of mirroring the entry's regular hop field: what is signed is what was given
+    if topo_idx % 3 == 1 {
+        for e in entries.iter_mut() {
+            for p in e.peer_entries.iter_mut() {
+                p.hop_field.cons_egress = p.hop_field.cons_egress.wrapping_add(1 + (r.u16() % 500));
+                if r.bool() {
+                    p.hop_field.expiration_units = p.hop_field.expiration_units.wrapping_add(1 + r.u8() % 7);
+                }
+            }
+        }
+    }
     let kp = |ia: IsdAsn| {
         Some(EntryKeyInfo {
             key: keys.get(&ia.to_u64())?.clone(),
